@@ -125,8 +125,10 @@ Definition deliver_data (e : bool) (sid : nat) (p : pentry) (s : st) : st :=
     set_stream k {| alive := true; half := half v; infb := infb v; sendb := sendb v; sheap := sheap v;
                     recvb := recvb v; cpin := cpin v; pinned := pinned v; pend := pend v ++ [p] |} s
   else if e then
+    (* a NEW stream object is accepted; the closed one holds nothing any more (Proofs: dead_empty), so
+       keeping its (empty) lists is the same thing and keeps every slot accounted for by construction *)
     set_stream k {| alive := true; half := false; infb := false; sendb := sendb v; sheap := sheap v;
-                    recvb := []; cpin := false; pinned := []; pend := [p] |} s
+                    recvb := recvb v; cpin := false; pinned := pinned v; pend := pend v ++ [p] |} s
   else
     (* protocol_manager.go: unknown stream -> recycleBuffers *)
     add_free (pslots [p]) s.
